@@ -56,6 +56,27 @@ def _check_main(run, P):
     run.do(_no_rewrite, run, P)
     run.do(_match, run, P)
     run.do(_leaf_shortcuts, run, P)
+    run.do(_one_notion_of_variable, run, P)
+
+
+def _one_notion_of_variable(run, P):
+    """The candidates of match() are the template's variables *including function symbols*
+    (f in f(x) can be bound).  Every other set of names that match() works out from an
+    expression is compared with the candidates, so it is built the same way."""
+    f = P.func(f"{MOD}.match")
+    calls = [x for x in ast.walk(f.node) if isinstance(x, ast.Call)
+             and (dotted(x.func) or "").split(".")[-1] == "get_variables"]
+    if not calls:
+        raise AnalysisError("match: no get_variables call (how the candidates are found is not read)")
+    for x in calls:
+        kw = kwarg(x, "include_function_symbols") if "kwarg" in globals() else next(
+            (k.value for k in x.keywords if k.arg == "include_function_symbols"), None)
+        ok = isinstance(kw, ast.Constant) and kw.value is True
+        run.ob("C17.free", f, x, ok,
+               construct=f"match: {norm(x, 60)} counts function symbols as variables, as the candidate set does",
+               why="a function symbol that is a candidate is invisible to a test made without them: a "
+                   "pre-supplied value that calls it is substituted and the symbol is bound to another "
+                   "function afterwards - the reported substitution does not give the target")
 
 
 def _leaf_shortcuts(run, P):
